@@ -51,11 +51,12 @@ _state = {"ctx": None, "post": None}
 
 
 def plan(tier, seed):
-    return [["case", i] for i in range(N_CASES[tier])]
+    # thorough only: the repository's own tests under the postconditions (they reach the derivation methods ten times)
+    return [["case", i] for i in range(N_CASES[tier])] + ([["pytest"]] if tier == "thorough" else [])
 
 
 def mandatory(tier):
-    return [f"op/{o}" for o in OPS] + ["chain", "down_chain_levels>=2", "cube_grid/spacing"]
+    return [f"op/{o}" for o in OPS] + ["chain", "down_chain_levels>=2", "cube_grid/spacing"] + (["pytest"] if tier == "thorough" else [])
 
 
 def setup(ctx):
@@ -263,7 +264,44 @@ def rand_op(rng, g, name):
 CHAIN_OPS = [o for o in OPS if o not in ("cube_grid", "down_up", "down_chain")]
 
 
+def pytest_item(ctx):
+    r"""The repository's own tests run with the same postconditions installed (vmon.pytest_plugin)."""
+    import json
+    import os
+    import subprocess
+    import sys
+    import tempfile
+
+    here = os.path.dirname(os.path.dirname(os.path.dirname(os.path.abspath(__file__))))
+    src = os.path.abspath(os.environ.get("VMON_REPO_SRC", "/repo/src"))
+    repo = os.path.dirname(src)
+    with tempfile.TemporaryDirectory(prefix="vmon-c03-") as tmp:
+        out = os.path.join(tmp, "events.json")
+        env = dict(os.environ, VMON_PLUGIN_OUT=out, VMON_PLUGIN_GRIDPOST="1", PYTHONPATH=os.pathsep.join([here, src]))
+        try:
+            r = subprocess.run([sys.executable, "-m", "pytest", "-q", "-p", "no:cacheprovider", "-p", "vmon.pytest_plugin", os.path.join(repo, "tests")], cwd=repo, env=env, capture_output=True, text=True, timeout=900)
+        except subprocess.TimeoutExpired:
+            ctx.inconclusive.append("pytest under the grid postconditions timed out")
+            return
+        if not os.path.exists(out):
+            ctx.inconclusive.append("pytest plugin wrote no event file: " + (r.stdout + r.stderr)[-500:])
+            return
+        ev = json.load(open(out)).get("gridpost", {})
+    n = int(ev.get("evaluations", 0))
+    ctx.bucket("pytest", n)
+    ctx.evaluations += n
+    ctx.count("pytest_postcondition_evaluations", n)
+    ctx.notes["pytest_contract_calls"] = {k: v["evaluations"] for k, v in ev.get("contracts", {}).items() if v["evaluations"]}
+    ctx.notes["pytest_summary"] = (r.stdout.strip().splitlines() or [""])[-1][:200]
+    for v in ev.get("violations", []):
+        ctx.violation(v["check"], "pytest/" + v["key"], via="repository tests", test=v.get("item"), **v.get("info", {}))
+    if "passed" not in ctx.notes["pytest_summary"]:
+        ctx.inconclusive.append("repository tests did not pass under the postconditions: " + ctx.notes["pytest_summary"])
+
+
 def run_item(ctx, item):
+    if item[0] == "pytest":
+        return pytest_item(ctx)
     rng = ctx.rng()
     D = int(rng.choice([2, 3]))
     max_size = 40 if D == 2 else 20
